@@ -1,55 +1,42 @@
 /-
-Open known findings / observations of C12 as machine-checked evaluations of the session model on
-concrete schedules.  NOT part of the gating build: if the code (and with it the model) is repaired these
-stop checking, and the check reports that the finding no longer reproduces.
+C12 has no open known finding any more.  This (non-gating) file keeps machine-checked evaluations of the
+session model on concrete schedules: the two defects found by the C12 work as they behave AFTER their
+repairs (fix e3d9663, fix 5623bd4 – if either is reverted and the model follows, these stop checking), and
+two recorded quirks.
 -/
 import AsyncFix.Props.C12
 namespace AsyncFix.Findings.C12
 open AsyncFix.Session AsyncFix.Session.Watchdog AsyncFix.Generated AsyncFix.Generated.ConnEnum
 open AsyncFix.Props.C12
 
-/-- C12-traffic-does-not-answer-testrequest.  h = 2 s, last frame at t0 = 100 000.  The peer sends a valid
-in-sequence Heartbeat every 2 s (102 000, 104 000) – exactly what FIX asks of an idle peer – but does not
-echo the TestRequest (id 101) that the watchdog sends at 101 500 because its idle threshold is
-`h − 1 = 1 s`.  Ticks every second.  The tick at 105 500 closes the socket although the last valid frame
-is 1.5 s old: nothing but the echo clears `_test_req_id`. -/
-def heartbeatingPeer : List WEv :=
-  [.tick (env0 100500), .tick (env0 101500), .recv (env0 102000) (peerMsg "0" "5" []),
-   .tick (env0 102500), .tick (env0 103500), .recv (env0 104000) (peerMsg "0" "6" []),
-   .tick (env0 104500), .tick (env0 105500)]
-
-theorem heartbeatingPeer_dropped :
-    (run (fun _ => true) c0 (hist heartbeatingPeer)).1.state = st_DISCONNECTED_BROKEN_CONN ∧
-    Effect.closeSocket ∈ (run (fun _ => true) c0 (hist heartbeatingPeer)).2 := by
+/-- FIXED (e3d9663), was C12-traffic-does-not-answer-testrequest: h = 2 s, last frame at 100 000, a valid
+Heartbeat every 2 s, the TestRequest (id 101) sent at 101 500 is never echoed, ticks every second.  Before
+the fix the tick at 105 500 closed the socket 1.5 s after a valid frame; now nothing is torn down. -/
+theorem heartbeatingPeer_spared :
+    (run (fun _ => true) c0 (hist heartbeatingPeer)).1.state = st_ACTIVE ∧
+    Effect.closeSocket ∉ (run (fun _ => true) c0 (hist heartbeatingPeer)).2 := by
   decide +kernel
 
-theorem not_live_peer_spared_traffic_full : ¬ live_peer_spared_traffic_full := by
-  intro hfull
-  have hp : Paced (2 * 1000) c0.lastTime heartbeatingPeer := by
-    simp [Paced, heartbeatingPeer, c0, env0]
-  have hb : BenignRun (fun _ => true) c0 heartbeatingPeer := benignRunB_sound (by decide +kernel)
-  have := hfull (fun _ => true) 2 c0 heartbeatingPeer (by omega) c0_up rfl hp hb
-    Effect.closeSocket heartbeatingPeer_dropped.2
-  simp [isDisc] at this
-
-/-- the same peer is spared as soon as it echoes (Props.C12 `live_peer_spared`), and traffic alone spares
-it only below the idle threshold (`live_peer_spared_traffic_partial`); with `h = 1` the threshold is 0:
-a frame at 100 000 and a tick 1 ms later already probe. -/
-theorem h1_probe_after_1ms :
-    writes (tick (env0 100001) { c0 with hb := 1 }).2 ≠ [] := by
+/-- … and once that peer falls silent (last frame 104 000) it is dropped by the first tick more than
+`2·h` after it, without a second TestRequest. -/
+theorem heartbeatingPeer_then_silent_dropped :
+    (run (fun _ => true) c0 (hist (heartbeatingPeer ++
+      [.tick (env0 106500), .tick (env0 107500), .tick (env0 108500)]))).1.state = st_DISCONNECTED_BROKEN_CONN := by
   decide +kernel
 
-/-- Observation (outside C12's "active session" scope, reported separately): a Heartbeat with a wrong
-TestReqID makes `_process_heartbeat` disconnect, but `_finalize_message` still runs afterwards and sets
-`_message_last_time` again; the stale value survives the disconnect, and the first watchdog iteration
-after a later successful reconnect – more than `2·h` seconds later, before any frame is finalised –
-tears the fresh connection down ("message last time timeout"). -/
-theorem stale_last_time_kills_reconnect :
+/-- FIXED (5623bd4), was the stale `_message_last_time` after a wrong-id Logout: `_finalize_message` no longer
+stamps the receive time on the connection the dispatch has just disconnected, so the first watchdog
+iteration after a later reconnect leaves the fresh connection alone. -/
+theorem reconnect_after_wrong_id_survives :
     let c1 := (recv (fun _ => true) (env0 102000) c0armed (peerMsg "0" "5" [(112, "abc")])).1
     let c2 := (connected c1 .initiator).1
-    c1.state = st_DISCONNECTED_BROKEN_CONN ∧ c1.lastTime = 102000 ∧
-    c2.state = st_NETWORK_CONN_ESTABLISHED ∧ c2.sock = true ∧
-    (tick (env0 160000) c2).2 = [.closeSocket, .onState st_DISCONNECTED_BROKEN_CONN, .onDisconnect] := by
+    c1.state = st_DISCONNECTED_BROKEN_CONN ∧ c1.lastTime = 0 ∧
+    c2.state = st_NETWORK_CONN_ESTABLISHED ∧ c2.sock = true ∧ tick (env0 160000) c2 = (c2, []) := by
+  decide +kernel
+
+/-- `h = 1`: the idle threshold is 0 – a frame at 100 000 and a tick 1 ms later already probe. -/
+theorem h1_probe_after_1ms :
+    writes (tick (env0 100001) { c0 with hb := 1 }).2 ≠ [] := by
   decide +kernel
 
 /-- Quirk (unreachable after 1970-01-01 00:00:01): `if not self._test_req_id` treats id 0 like "none"
